@@ -343,6 +343,11 @@ fn ordinary(h: &H, idx: u64, kp: &std::path::Path, scratch: &std::path::Path, rn
                 let mut s = String::new();
                 for c in &fwd {
                     s += &format!("{:.4} {:.4} {:.4} {:.4}\n", c[0], c[1], c[2], if c[3].is_nan() { 2000.0 } else { c[3] });
+                    if (op_text.contains("utm") || op_text.contains("tmerc")) && !roundtrip && rng.chance(0.15) {
+                        // a line far outside the projection's domain: NaN is its answer, and the
+                        // lines behind it are transformed as ever
+                        s += "50000000 1000000 0 2000\n";
+                    }
                 }
                 let tp = read_lines(&s, z, t);
                 (s, tp)
